@@ -387,6 +387,13 @@ def c2_generate(fb, rep):
                    states == {'Z'}, R.site(f, e2), 'state of the `modified == 0` test at the return: %s' % sorted(states), f.sname)
         # abort tests: a branch whose condition involves maxTimeMillis
         aborts = []
+        # the limit itself, or a local that holds a reading of it
+        lim_ids = {time_param}
+        for _, _, e_ in f.events():
+            if e_.get('k') == 'decl':
+                for v in e_.get('vars', []):
+                    if v.get('init') is not None and any(n.get('k') == 'var' and n.get('id') == time_param for n in walk(v['init'])):
+                        lim_ids.add(v['id'])
         for b2, blk in f.blocks.items():
             t = blk.get('term')
             if not t or len(blk['succ']) != 2 or t.get('c') != 'IfStmt':
@@ -394,7 +401,7 @@ def c2_generate(fb, rep):
             c = t.get('cond')
             if c is None:
                 continue
-            involves = any(n.get('k') == 'var' and n.get('id') == time_param for n in walk(c))
+            involves = any(n.get('k') == 'var' and n.get('id') in lim_ids for n in walk(c))
             if not involves:
                 continue
             aborts.append(b2)
